@@ -361,14 +361,25 @@ Definition all_workers_done (nw : nat) (p : pcfg) : bool :=
 Definition d_recv (p : pcfg) (n : nat) : pcfg :=
   mkP n (p_buf p) (p_cancel p) DHave (p_w p) (S (p_received p)) (p_enqueued p) (p_dropped p)
       (if p_cancel p then S (p_after p) else p_after p).
-(* non-blocking hand-off: enqueue if there is room, else drop and count *)
-Definition d_handoff (cap : nat) (p : pcfg) (next : dpc) : pcfg :=
+(* non-blocking hand-off `select { case shallowBuffer <- msg: ; default: drop }`: into the buffer if
+   there is room; on an unbuffered channel (capacity 0, i.e. fewer than 10 workers) directly to a
+   worker that is waiting in its select; else drop and count *)
+Definition w_idle (p : pcfg) (i : nat) : bool := match p_w p i with PIdle => true | _ => false end.
+Definition first_idle (nw : nat) (p : pcfg) : option nat := find (w_idle p) (seq 0 nw).
+Definition busy_of (work : nat) : ppc := match work with 0 => PIdle | S k => PBusy k end.
+Definition can_handoff (nw cap : nat) (p : pcfg) : bool :=
+  (p_buf p <? cap) || ((cap =? 0) && match first_idle nw p with Some _ => true | None => false end).
+Definition d_handoff (nw cap work : nat) (p : pcfg) (next : dpc) : pcfg :=
   if p_buf p <? cap
   then mkP (p_in p) (S (p_buf p)) (p_cancel p) next (p_w p) (p_received p) (S (p_enqueued p)) (p_dropped p) (p_after p)
-  else mkP (p_in p) (p_buf p) (p_cancel p) next (p_w p) (p_received p) (p_enqueued p) (S (p_dropped p)) (p_after p).
+  else match (if cap =? 0 then first_idle nw p else None) with
+       | Some i => mkP (p_in p) (p_buf p) (p_cancel p) next (upd (p_w p) i (busy_of work))
+                       (p_received p) (S (p_enqueued p)) (p_dropped p) (p_after p)
+       | None => mkP (p_in p) (p_buf p) (p_cancel p) next (p_w p) (p_received p) (p_enqueued p) (S (p_dropped p)) (p_after p)
+       end.
 
 (* Some p' if the action is enabled *)
-Definition dstep (fixed : bool) (nw cap : nat) (p : pcfg) (pick : bool) : option pcfg :=
+Definition dstep (fixed : bool) (nw cap work : nat) (p : pcfg) (pick : bool) : option pcfg :=
   match p_d p with
   | DTop => (* if ctx.Err() != nil { break } *)
       Some (set_d p (if p_cancel p then DWait else DSel))
@@ -383,12 +394,12 @@ Definition dstep (fixed : bool) (nw cap : nat) (p : pcfg) (pick : bool) : option
   | DHave =>
       if fixed then
         (* select { case shallowBuffer <- msg: ; default: drop } *)
-        Some (d_handoff cap p DTop)
+        Some (d_handoff nw cap work p DTop)
       else
         (* select { case <-ctx.Done(): break; case shallowBuffer <- msg: ; default: drop }
            -- a random choice among the ready cases *)
         if p_cancel p && (pick || negb (p_buf p <? cap)) then Some (set_d p DWait)
-        else Some (d_handoff cap p DSel)
+        else Some (d_handoff nw cap work p DSel)
   | DWait => if all_workers_done nw p then Some (set_d p DDone) else None
   | DDone => None
   end.
@@ -402,7 +413,7 @@ Definition wkstep (nw work : nat) (p : pcfg) (i : nat) (pick : bool) : option pc
         else match p_buf p with
              | 0 => None
              | S b => Some (set_w (mkP (p_in p) b (p_cancel p) (p_d p) (p_w p) (p_received p) (p_enqueued p) (p_dropped p) (p_after p))
-                              i (match work with 0 => PIdle | S k => PBusy k end))
+                              i (busy_of work))
              end
     | PBusy 0 => Some (set_w p i PIdle)
     | PBusy (S k) => Some (set_w p i (PBusy k))
@@ -414,7 +425,7 @@ Definition pstep (fixed : bool) (nw cap work : nat) (p : pcfg) (a : pact) : opti
   match a with
   | PArrive => Some (mkP (S (p_in p)) (p_buf p) (p_cancel p) (p_d p) (p_w p) (p_received p) (p_enqueued p) (p_dropped p) (p_after p))
   | PCancel => Some (mkP (p_in p) (p_buf p) true (p_d p) (p_w p) (p_received p) (p_enqueued p) (p_dropped p) (p_after p))
-  | PDistr pick => dstep fixed nw cap p pick
+  | PDistr pick => dstep fixed nw cap work p pick
   | PWork i pick => wkstep nw work p i pick
   end.
 
